@@ -92,6 +92,7 @@ type ereqPlan struct {
 
 type erec struct {
 	id         int
+	reusedFrom int // the request whose token is presented again (-1: freshly issued token)
 	plan       *ereqPlan
 	bt         builtToken
 	c          *csRec // the request on the wire + what the route handler saw
@@ -113,6 +114,7 @@ type engWorld struct {
 	cw       *csWorld
 	groups   []*egroup
 	order    []int // order[k] = index of the group registered k-th (AddRoutes call order)
+	recs     []*erec
 	nUse     int
 	unauthCb bool
 	unsCb    bool
@@ -160,6 +162,12 @@ func engineWiring(r *simrt.Run, tier string) {
 			attacker: fmt.Sprintf("g%dx-%s", i, g.text(4+int(g.next()%24))),
 		}
 		ownPrev := fmt.Sprintf("g%dp-%s", i, g.text(4+int(g.next()%24)))
+		if sf := weighted(t, 8, 1, 1); sf != sfUsual && gr.hasJwt {
+			// very long / binary secrets of the group (rest.WithJwt wants at least 8 bytes: no tiny ones)
+			gr.sec.cur = secretOf(g, sf, fmt.Sprintf("g%dc-long", i))
+			ownPrev = secretOf(g, sf, fmt.Sprintf("g%dp-long", i))
+			r.Probe("engine-group-secret-" + sfNames[sf])
+		}
 		curPool := -1
 		if cs := weighted(t, 3, 1, 1, 1); cs > 0 && gr.hasJwt {
 			curPool = cs - 1
@@ -286,6 +294,13 @@ func engineWiring(r *simrt.Run, tier string) {
 				if p.cp.crypt {
 					p.cp.chunked = false
 				}
+			}
+		}
+	}
+	if !t.Chance(1, 8) { // see limitClaimOverflow
+		for i := range plans {
+			for _, p := range plans[i] {
+				tameClaims(&p.jp)
 			}
 		}
 	}
@@ -555,10 +570,24 @@ func (e *engWorld) send(h http.Handler, p *ereqPlan) {
 		r.Sleep(p.cp.think)
 	}
 	nowS := time.Now().Unix()
-	rec := &erec{plan: p, seen: map[string]any{}, mwSeen: map[string]any{}, mwRan: make([]int, e.nUse), ranGroup: -1}
+	rec := &erec{plan: p, seen: map[string]any{}, mwSeen: map[string]any{}, mwRan: make([]int, e.nUse), ranGroup: -1, reusedFrom: -1}
 	if p.withJwt {
 		rec.bt = buildToken(p.jp, e.groups[p.jsrc].sec, nowS)
+		if p.jp.reuse > 0 {
+			var earlier []*erec
+			for _, o := range e.recs {
+				if o.bt.present && o.bt.auth != "" {
+					earlier = append(earlier, o)
+				}
+			}
+			if len(earlier) > 0 {
+				o := earlier[(p.jp.reuse-1)%len(earlier)]
+				rec.bt, rec.reusedFrom = o.bt, o.id
+				r.Probe("engine-token-presented-again")
+			}
+		}
 	}
+	e.recs = append(e.recs, rec)
 	// the client's key configuration is that of group csrc, the timestamps aim at the target's tolerance
 	cw.srv = e.groups[p.csrc].sig
 	cw.srv.tolerance, cw.srv.strict = tg.sig.tolerance, tg.sig.strict
@@ -623,7 +652,9 @@ func (e *engWorld) describe(rec *erec, jv *jwtVerdict, cv *csVerdict) string {
 	p, q := rec.plan, &rec.c.q
 	tg := e.groups[p.target]
 	s := fmt.Sprintf("request %d to %s: %s %s", rec.id, tg, q.method, q.url())
-	if p.withJwt {
+	if p.withJwt && rec.reusedFrom >= 0 {
+		s += fmt.Sprintf("; token of request %d presented again, Authorization=%q", rec.reusedFrom, rec.bt.auth)
+	} else if p.withJwt {
 		s += fmt.Sprintf("; token (%s, made with group %d's secrets, signer %d) Authorization=%q", fkNames[p.jp.kind], p.jsrc, p.jp.signer, rec.bt.auth)
 	} else {
 		s += "; no Authorization header"
@@ -637,7 +668,7 @@ func (e *engWorld) describe(rec *erec, jv *jwtVerdict, cv *csVerdict) string {
 		s += fmt.Sprintf("; no X-Content-Security header, body=%s", short(q.body))
 	}
 	if tg.hasSig {
-		s += fmt.Sprintf(" [verifier: reason=%q ts=%d]", cv.reason, cv.ts)
+		s += fmt.Sprintf(" [verifier: reason=%q ts=%s]", cv.reason, tsText(cv))
 	}
 	return s + fmt.Sprintf("; sent %s returned %s status %d handler-ran=%d middleware-ran=%v",
 		rec.t0.UTC().Format("2006-01-02T15:04:05.000000000"), rec.t1.UTC().Format("15:04:05.000000000"), rec.c.status, rec.c.ran, rec.mwRan)
@@ -706,14 +737,13 @@ func (e *engWorld) check(rec *erec, rw *httptest.ResponseRecorder) {
 			if ranAny {
 				end = first
 			}
-			lo, hi, slack := window(cv.ts, tg.sig.tolerance)
-			mustC = !rec.t0.Before(lo) && !rec.t1.After(hi)
-			csMay = rec.t0.Before(slack) && !end.Before(lo)
+			var atEdge bool
+			csMay, mustC, atEdge = tsJudge(cv.ts, cv.tsOpen, tg.sig.tolerance, rec.t0, end, rec.t1)
 			if !csMay {
 				r.Probe("engine-timestamp-outside-tolerance")
 				e.boundary = true
 			}
-			if rec.t0.Equal(lo) || rec.t0.Equal(hi) {
+			if atEdge {
 				r.Probe("engine-timestamp-exactly-at-tolerance")
 				e.boundary = true
 			}
@@ -729,10 +759,27 @@ func (e *engWorld) check(rec *erec, rw *httptest.ResponseRecorder) {
 		r.Probe("engine-token-rejected-by-time-claims")
 		e.boundary = true
 	}
+	if tg.hasJwt {
+		probeTimeClaims(r, &rec.bt, &jv, s0)
+	}
 	if s0 != s1 {
 		r.Probe("engine-call-straddled-a-second")
 	}
 
+	// a token with a time claim beyond the range of an int64 second count: see overflowFinding
+	if tg.hasJwt && overflowClass(&jv, true) != "" {
+		switch {
+		case ranAny && !mayJ:
+			finding(r, overflowAccepted, "%s: protected code of the group RAN although the token's %s claim lies in the (unreachable) future", desc, jv.overflow)
+			return
+		case !ranAny && !mayJ && c.status != http.StatusUnauthorized:
+			finding(r, overflowAccepted, "%s: rejected with %d, not 401: the jwt gate let the token pass although its %s claim lies in the (unreachable) future", desc, c.status, jv.overflow)
+			return
+		case !ranAny && mustJ && c.status == http.StatusUnauthorized:
+			finding(r, overflowRejected, "%s: the token is valid for this group's configuration (%s lies beyond the range of an int64 second count), but the jwt gate answered 401", desc, jv.overflow)
+			return
+		}
+	}
 	if c.ran > 1 {
 		r.Fail("engine-handler-ran-twice", "%s: the route handler ran %d times", desc, c.ran)
 		return
